@@ -2,10 +2,11 @@
 P: every query-atom class __eq__ and QueryBond.__eq__ == independently written predicate, all attribute values, symbolic atomic
 numbers; P: calc_labels per-atom labels; B (checks/b08.py): SMARTS strings and matching on molecules."""
 from vlib import env
-from checks.common import bounded_part, want, contract_sources
+from checks.common import make_replay, bounded_part, want, contract_sources
 from pysym.harness import run_cases
 
 LEVEL = 'proof'
+replay = make_replay('C08')
 FINISH = dict(
     rule='P: one obligation per path of the real __eq__ / label code (all paths); B: SMARTS strings and (query, molecule) pairs',
     explanation='The real __eq__ methods of QueryElement, AnyElement, ListElement, AnyMetal, QueryBond and Bond are executed on proxy '
